@@ -801,12 +801,16 @@ func runHistory(o *hx.Out, e *entry, h []string) bool {
 		switch {
 		case p1 != "" || p2 != "":
 			obs = "panic " + p1 + p2
-		case (e2 == nil) != nn.ok:
+		case !nn.auto && (e2 == nil) != nn.ok:
 			obs = fmt.Sprintf("table:base-verdict-not-as-declared ok=%v", e2 == nil)
 		case (e1 == nil) != (e2 == nil):
 			obs, detail = "diff:verdict", fmt.Sprintf(" mod=%v base=%v", e1 == nil, e2 == nil)
 		case e1 == nil && !same(r1, r2):
 			obs, detail = "diff:value", fmt.Sprintf(" mod=%v base=%v", deref(r1), deref(r2))
+		}
+		if nn.auto {
+			nn.ok = e2 == nil
+			detail += " zero-value"
 		}
 		o.Emit(fmt.Sprintf("c03 val %s %s %s %s %s #%s in=%v%s", kindOf(e), okBad(nn.ok), hx.B01(nn.dep), hx.B01(ownPath(e, h)), strings.Join(h, " "), e.name, in, detail), obs)
 		o.Count("nonnil:" + strings.SplitN(obs, " ", 2)[0])
